@@ -65,6 +65,13 @@ def run(ctx):
                                'args': lib.cfg_args(cfg), 'args2': cases[[c['id'] for c in cases].index('P%d' % i)]['args'],
                                'stdin_hex': data.hex(), 'stdin': data.decode('utf8', 'replace'),
                                'observed': p['stdout'].decode('utf8', 'replace'), 'expected': a['stdout'].decode('utf8', 'replace')})
+        # the model's rows ARE the documented composition (C03_refines / C03_program): a run whose rows differ from them is a
+        # concrete input on which the pipeline is not that composition
+        m = model.get('A%d' % i)
+        if m is not None and a['result'] == 'ok' and m['result'] == 'ok' and a['stdout'] != m['stdout'] and len(violations) < 5:
+            violations.append({'property': 'C03', 'relation': 'rows == rows of the documented composition of stages (computed by the model, proved equal to the composition by C03_program)',
+                               'args': lib.cfg_args(cfg), 'stdin_hex': data.hex(), 'stdin': data.decode('utf8', 'replace'),
+                               'observed': a['stdout'].decode('utf8', 'replace'), 'expected': m['stdout'].decode('utf8', 'replace')})
         g = impl2.get('G%d' % i)
         if g is not None and a['result'] == 'ok' and g['result'] == 'ok' and not uses_ictx(cfg):
             checked += 1
